@@ -148,7 +148,7 @@ def spline_cases(draw):
     case = draw(base_cases())
     n = len(case["cloud"]["cells"])
     if draw(st.booleans()):
-        k = draw(st.integers(1, max(1, n - 1)))
+        k = draw(st.sampled_from([n, n])) if draw(st.integers(0, 3)) == 0 else draw(st.integers(1, max(1, n - 1)))  # also as many forces as data: a square, non-symmetric system
         case["force_fracs"] = [[draw(gen.finite(0, case["cloud"]["side"])), draw(gen.finite(0, case["cloud"]["side"]))] for _ in range(k)]
     else:
         case["force_fracs"] = None
@@ -183,7 +183,7 @@ def vector_cases(draw):
     case["poisson"] = draw(st.one_of(st.sampled_from([-1.0, 0.0, 0.5, 1.0]), gen.finite(-1, 1)))
     case["mindist"] = draw(st.sampled_from([0.1, 1.0, 3.0]))
     if draw(st.booleans()):
-        k = draw(st.integers(1, max(1, n - 1)))
+        k = draw(st.sampled_from([n, n])) if draw(st.integers(0, 3)) == 0 else draw(st.integers(1, max(1, n - 1)))  # also as many forces as data: a square, non-symmetric system
         case["force_fracs"] = [[draw(gen.finite(0, case["cloud"]["side"])), draw(gen.finite(0, case["cloud"]["side"]))] for _ in range(k)]
     else:
         case["force_fracs"] = None
